@@ -253,10 +253,10 @@ def _configure():
         legs=[EXPLORE, SQLCONF])
     cfg("C10", "proof", ["A4", "A6", "A10", "A11", "A13"], not_reached=[NR_SQL],
         explanation="acceptance predicate snap_should_accept written from the statement (literal 5; corner v = non-nil base left free); loop invariant of the bounded walk; declined => untouched; success either way",
-        legs=[EXPLORE, SQLCONF, INTERLEAVE, XCHECK])
+        legs=[EXPLORE, SQLCONF, INTERLEAVE, FAULTS, XCHECK])
     cfg("C11", "proof", ["A4", "A6", "A13"], not_reached=[NR_SQL, "schedules (AddSnapshot overlapping GetSnapshot) only via C03's reduction"],
         explanation="gs.pair / gs.none (id and bytes of the stored snapshot, both written by one set_snapshot call: snap.applied), chain_wf's snapshot conjunct (snapshot version on the chain or its base) preserved by every operation, walk lemma L.snap_base",
-        legs=[EXPLORE, SQLCONF, HTTP, INTERLEAVE, XCHECK])
+        legs=[EXPLORE, SQLCONF, HTTP, INTERLEAVE, FAULTS, XCHECK])
     cfg("C12", "proof", ["A7", "A8", "A10", "A12", "A13"], assumptions=[A["A7"], A["A8"]], not_reached=[NR_SQL, "the wall clock (A10)", "configuration wiring in main (C17)"],
         explanation="threshold functions equal floor(3t/2)/t spec for ALL targets without overflow (Verus over all i64/u32), urgency = max of both from the pre-request record (av.urgency), counter bumped by add_version_spec and reset by new_snap (storage contract)",
         legs=[EXPLORE, KANI_URGENCY, SQLCONF, STANDINS, XCHECK])
